@@ -24,6 +24,7 @@ def tu_for(tracking):
     s += 'namespace vf { auto root_bol(const %s& in, const position& p) { return in.begin_of_line( p ); } }\n' % it
     s += 'namespace vf { auto root_pos(const %s& in) { return in.position(); } }\n' % it
     s += 'namespace vf { auto root_eol(const %s& in, const position& p) { return in.end_of_line( p ); } }\n' % it
+    s += 'namespace vf { auto root_lineat(const %s& in, const position& p) { return in.line_at( p ); } }\n' % it
     if tracking == 'eager':
         s += 'namespace vf { auto root_bolcc(const InE_cr_crlf& in, const position& p) { return in.begin_of_line( p ); } }\n'
         s += 'namespace vf { auto root_eolcc(const InE_cr_crlf& in, const position& p) { return in.end_of_line( p ); } }\n'
@@ -150,6 +151,22 @@ def jobs(tier):
                        stubs=[(r'std::find<char const\*, char>\(', STD_FIND, 'opt')],
                        expect_fail_canary=('canary_exit',),
                        desc='memory_input<%s>::end_of_line(position) (eol policy lf_crlf), real until< at< eolf > > on the lazy sub-input under a loop contract' % tr))
+        # line_at(): string_view { begin_of_line(p), end_of_line(p) - begin_of_line(p) }: everything below it runs as real code
+        frmL = frm + (' && g_bol <= g_k && (g_bol == 0 || IN_BEGIN(self)[g_bol - 1] == EOLCH) && ((g_q >= g_bol && g_q < g_k) ==> IN_BEGIN(self)[g_q] != EOLCH)'
+                      ' && p->column == 1 + (g_k - g_bol) ')
+        conL = Contract(R(frmL, 'position-from-this-input'), A('vf_exc, vf_exc_counter'),
+                        E('__CPROVER_same_object(RETP._M_str, IN_BEGIN(self)) && OFF(RETP._M_str) == g_bol', 'LINE-AT-STARTS-AT-THE-START-OF-THE-LINE', ('C19',)),
+                        E('g_bol + RETP._M_len >= g_k && g_bol + RETP._M_len <= g_n', 'LINE-AT-ENDS-INSIDE-THE-INPUT-AT-OR-AFTER-THE-POSITION', ('C19', 'C03')),
+                        E('g_bol + RETP._M_len == g_n || EOLSTART(g_bol + RETP._M_len)', 'LINE-AT-ENDS-AT-A-LINE-ENDING-OR-THE-END-OF-INPUT', ('C19',)),
+                        E('(g_q >= g_k && g_q < g_bol + RETP._M_len) ==> !EOLSTART(g_q)', 'LINE-AT-CONTAINS-NO-LINE-ENDING-AFTER-THE-POSITION', ('C19',)),
+                        E('vf_exc.pending == 0', 'LINE-AT-NEVER-RAISES', ('C19',)),
+                        E('vf_canary', 'canary_exit'))
+        out.append(Job('lineat_default_%s' % tr[0], grp, 'lineat', conL, ('C19', 'C03'), prelude=prelude(tr) + PRE + EOLSTART_DEF,
+                       harness=H % {'it': it, 'setup': setup + ' __CPROVER_assume(g_byte0 == 0 && g_col0 == 1); vf_exc.pending = 0;', 'call': '$ENTRY(&in, &p)'},
+                       loops={(r'^bool tao::pegtl::internal::until<tao::pegtl::internal::at<tao::pegtl::internal::eolf> ?>::match<', 1, 'opt'): inv},
+                       stubs=[(r'std::find<char const\*, char>\(', STD_FIND, 'opt')],
+                       expect_fail_canary=('canary_exit',),
+                       desc='memory_input<%s>::line_at(position) (lf_crlf): real begin_of_line and end_of_line below it' % tr))
         # end_of_line() under the policies cr_crlf and lf (same real body, other Eol::match inside eolf)
         if tr == 'eager':
             for key, pol, edef in (('eolcc', 'cr_crlf', EOLSTART_CC), ('eollf', 'lf', EOLSTART_LF), ('eolcr', 'cr', EOLSTART_CR), ('eolcrlf', 'crlf', EOLSTART_CRLF)):
